@@ -8,13 +8,34 @@ import (
 	"bytes"
 	"fmt"
 	"math/rand"
+	"runtime"
 	"strconv"
+	"sync"
 
 	"github.com/dave/jennifer/jen"
 )
 
+// slowWriter consumes what it is given in small pieces and yields the processor between them, the way a
+// network connection or a pipe does: bytes handed to Write must stay valid until Write returns.
+type slowWriter struct{ buf bytes.Buffer }
+
+func (w *slowWriter) Write(b []byte) (int, error) {
+	for i := 0; i < len(b); i += 64 {
+		j := i + 64
+		if j > len(b) {
+			j = len(b)
+		}
+		w.buf.Write(b[i:j])
+		runtime.Gosched()
+	}
+	return len(b), nil
+}
+
 // RunHistory executes a history on a fresh File and returns every output it produced.
-func RunHistory(h []Action, noformat bool) []byte {
+func RunHistory(h []Action, noformat bool) []byte { return RunHistoryW(h, noformat, false) }
+
+// RunHistoryW: with slow = true every File.Render writes into a slowWriter.
+func RunHistoryW(h []Action, noformat bool, slow bool) []byte {
 	var out bytes.Buffer
 	f := newFile(h[0], noformat)
 	b := NewBuilder()
@@ -36,6 +57,13 @@ func RunHistory(h []Action, noformat bool) []byte {
 			f.Add(b.Code(a.Tree))
 		case "Render":
 			r := renderFile(f)
+			if slow {
+				r = safely(func() ([]byte, error) {
+					w := &slowWriter{}
+					err := f.Render(w)
+					return w.buf.Bytes(), err
+				})
+			}
 			out.WriteString(r.status + "\n")
 			out.Write(r.out)
 		case "Frag":
@@ -83,18 +111,44 @@ func DetDriver(r *rand.Rand, n int) [][]Action {
 		// a Dict with many pairs: identifier / literal / already imported qualified keys, qualified values
 		np := 2 + r.Intn(11)
 		d := &Node{K: "dict"}
+		keyTexts := map[string]bool{}
 		for j := 0; j < np; j++ {
 			var key *Node
-			switch r.Intn(3) {
+			switch r.Intn(5) {
 			case 0:
 				key = stm(idn("K" + strconv.Itoa(j)))
 			case 1:
 				key = stm(lit(strconv.Itoa(j)))
+			case 2:
+				// numeric keys of mixed shapes: integers of different widths, floats, negative numbers, constant expressions
+				// that begin with a digit (every text is distinct within one Dict: j is part of it)
+				switch r.Intn(5) {
+				case 0:
+					key = stm(lit(strconv.Itoa(1000 + j*[]int{1, 7, 10, 100, 1001}[r.Intn(5)])))
+				case 1:
+					key = stm(lit(strconv.Itoa(j) + "." + strconv.Itoa(1+r.Intn(9))))
+				case 2:
+					key = stm(lit("-" + strconv.Itoa(j+1)))
+				case 3:
+					key = stm(lit(strconv.Itoa(j+1)), opn("<<"), lit(strconv.Itoa(1+r.Intn(9))))
+				default:
+					key = stm(lit(strconv.Itoa(j)+"."+strconv.Itoa(1+r.Intn(9))), opn("+"), lit("0"))
+				}
+			case 3:
+				key = stm(lit(strconv.Quote([]string{"", "a", "B", "10", "2", "_", "é"}[r.Intn(7)] + strconv.Itoa(j))))
 			default:
 				p := "m0/d" // referenced before the Dict, so already imported when the Dict is rendered
 				key = stm(grp("qual", &Node{K: "tok", T: "pkg", V: p}, idn("Key"+strconv.Itoa(j))))
 				st.m["Key"+strconv.Itoa(j)] = p
 			}
+			kt := ""
+			for _, it := range key.Items {
+				kt += it.V + " "
+			}
+			if keyTexts[kt] { // two keys with the same text are the trigger class of the known finding F6b
+				key = stm(idn("K" + strconv.Itoa(j)))
+			}
+			keyTexts[kt] = true
 			p := fmt.Sprintf("v%d/%s", r.Intn(4), []string{"d", "val"}[r.Intn(2)])
 			val := stm(grp("qual", &Node{K: "tok", T: "pkg", V: p}, idn(st.sym(p))))
 			d.Items = append(d.Items, &Node{K: "pair", Items: []*Node{key, val}})
@@ -135,6 +189,22 @@ func cmdDet(args []string) {
 				first = hh
 			}
 			hashes[hh] = true
+		}
+		// the same construction on several goroutines at once, written through slow writers: still the same bytes
+		if i%4 == 0 {
+			var mu sync.Mutex
+			var wg sync.WaitGroup
+			for g := 0; g < 8; g++ {
+				wg.Add(1)
+				go func() {
+					defer wg.Done()
+					hh := Hash(RunHistoryW(h, false, true)) + Hash(RunHistoryW(h, true, true))
+					mu.Lock()
+					hashes[hh] = true
+					mu.Unlock()
+				}()
+			}
+			wg.Wait()
 		}
 		tw.Emit(Rec{"ev": "det", "id": i + 1, "nhash": len(hashes), "hash": first})
 		tw.Distinct("recipes", first)
